@@ -173,8 +173,8 @@ Proof.
 Qed.
 
 (* ---------- an out variable that already holds a value: the Item passed for o3 has nums = [1; ...], the implementation
-   sets an Item with nums = [] - the caller reads the stale nums (known finding; the out variables must be fresh in
-   the closed theorem). Signature with the out parameters last:
+   sets an Item with nums = [] - at the pinned revision the caller read the stale nums (former known finding, repaired
+   in the generator template; the closed theorem still asks for fresh out variables). Signature with the out parameters last:
      int m2(int a, string b, Item d, out string o1, out vector<int> o2, out Item o3, out map<string,string> o4) ---------- *)
 Definition fx_sig : fsig :=
   {| fs_name := [109; 50]; fs_ret := Some TI32;
@@ -206,18 +206,23 @@ Proof.
   split; [|apply N.leb_le; vm_compute; reflexivity].
   unfold rsp_fine, smap_fine, str_fine. cbn [ok_reply p_ver p_ptype p_id p_mtype p_ret p_buf p_status p_desc p_ctx fx_qp mkreq q_ver q_ptype q_id]. fine_packet.
 Qed.
+(* after the repair of the generated ResetDefault (every member is reset) the caller reads exactly what the
+   implementation set: the stale nums = [1; -5000000000] of the pre-filled out variable are gone. (At the pinned
+   revision this call returned the Item with the old nums - the former known finding
+   e2e/out/prefilled-out-variable/stale-optional-member; Codec/Pinned.v has the pinned decoder.) *)
 Example fx_prefilled_result :
   fst (call env0 SR SP MAXP fx_impl_empty (filters_of inv_res ex_pc) (filters_of disp_res ex_ps) [fx_sig] fx_sig fx_args_prefilled ex_opts false 41 [79; 98; 106] 3000)
-  = COk ex_ret [VStr [111; 49]; VList [VInt 1; VInt 70000]; VStruct [VInt 9; VStr [97; 98]; VList [VInt 1; VInt (-5000000000)]; VInt 8];
-                VMap [(VStr [120], VStr [121; 122])]] [ex_rc; ex_rs].
+  = COk ex_ret fx_outs_empty [ex_rc; ex_rs].
 Proof. vm_compute. reflexivity. Qed.
 
-Theorem prefilled_out_refutes : ~ transparent_ok_statement.
+(* the instance of the full-strength value statement that the pinned code refuted now holds *)
+Theorem prefilled_out_witness :
+  find_fn [fx_sig] (fs_name fx_sig) = Some fx_sig /\ sig_fine env0 2 4 fx_sig /\ args_typed env0 (fs_args fx_sig) fx_args_prefilled /\
+  outs_skippable fx_sig fx_args_prefilled /\ results_typed env0 fx_sig (results ex_ret fx_outs_empty) /\
+  req_sendable env0 SR MAXP fx_qp /\ rsp_sendable env0 SP MAXP (ok_reply env0 fx_sig fx_qp ex_ret fx_outs_empty ex_rc ex_rs) /\
+  fst (call env0 SR SP MAXP fx_impl_empty (filters_of inv_res ex_pc) (filters_of disp_res ex_ps) [fx_sig] fx_sig fx_args_prefilled ex_opts false 41 [79; 98; 106] 3000)
+  = COk ex_ret fx_outs_empty [ex_rc; ex_rs].
 Proof.
-  intros H.
-  specialize (H env0 2%nat 4%nat SR SP MAXP fx_impl_empty ex_pc ex_ps [fx_sig] fx_sig fx_args_prefilled ex_opts 41%Z [79; 98; 106] 3000%Z
-                ex_ret fx_outs_empty ex_rc ex_rs fx_env0_wf ltac:(lia) eq_refl eq_refl ltac:(vm_compute; reflexivity)).
-  cbn zeta in H.
-  specialize (H ltac:(vm_compute; reflexivity) fx_sig_fine fx_prefilled_typed fx_prefilled_skippable eq_refl I fx_empty_typed fx_qp_sendable fx_rp_sendable).
-  rewrite fx_prefilled_result in H. discriminate H.
+  exact (conj eq_refl (conj fx_sig_fine (conj fx_prefilled_typed (conj fx_prefilled_skippable (conj fx_empty_typed
+          (conj fx_qp_sendable (conj fx_rp_sendable fx_prefilled_result))))))).
 Qed.
